@@ -129,7 +129,11 @@ def strategy():
     txt = st.tuples(st.just("t"), TEXT).map(list)
     pure = st.lists(st.one_of(txt, csi), min_size=1, max_size=8)
     mixed = st.lists(st.one_of(txt, csi, raw), min_size=1, max_size=8)
-    return st.fixed_dictionaries({"tokens": st.one_of(pure, mixed)})
+    # long inputs: more escape sequences than any small constant (e.g. a regex count argument), fallback path forced by
+    # SGR numbers the parser does not know
+    unknown_sgr = st.tuples(st.just("csi"), st.tuples(st.sampled_from([[90], [97], [20], [22], [100], [90, 1]]), st.just("m")).map(list)).map(list)
+    long_ = st.lists(st.one_of(txt, csi, unknown_sgr, unknown_sgr), min_size=18, max_size=45)
+    return st.fixed_dictionaries({"tokens": st.one_of(pure, mixed, pure, mixed, long_)})
 
 
 REAL_WORLD = [
@@ -143,6 +147,10 @@ REAL_WORLD = [
     "\x1b[mreset only",
     "\x1b[A\x1b[2Kup and erase\x1b[1B",
     "no escapes at all\njust text",
+    "".join("\x1b[%dm%s\x1b[0m " % (90 + i % 8, "word%d" % i) for i in range(30)) + "\n",
+    "".join("\x1b[38;5;%dmx" % i for i in range(40)) + "\x1b[0m",
+    "\x1b[31mred\x1b[39m \x1bMline1\nline2",
+    "top\x1b[?25l\nhidden cursor\x1b[?25h\nend",
 ]
 
 
